@@ -118,6 +118,7 @@ impl Solver {
         self.buf.push('\n');
     }
     fn flush(&mut self) {
+        if let Ok(d) = std::env::var("VERIF_DUMP_SMT") { use std::io::Write as _; if let Ok(mut f) = std::fs::OpenOptions::new().create(true).append(true).open(format!("{}/z3-{:?}.smt2", d, std::thread::current().id())) { let _ = f.write_all(self.buf.as_bytes()); } }
         if self.inp.write_all(self.buf.as_bytes()).is_err() || self.inp.flush().is_err() { self.buf.clear(); self.restart(); return; }
         self.buf.clear();
     }
@@ -258,8 +259,64 @@ pub struct Ctx {
     pc_smt: Vec<String>,
     levels: Vec<Level>,
     solver_epoch: u64,
+    lin_memo: RefCell<HashMap<u32, std::rc::Rc<Lin>>>,
+    pub n_lin_decided: std::cell::Cell<u64>,
+    /// variable nodes registered as ranging over [-1,1] (the assumption itself is a PC conjunct)
+    pub unit_box: std::collections::HashSet<u32>,
+    alin_memo: RefCell<HashMap<u32, std::rc::Rc<ALin>>>,
+    /// concolic path selection: every branch is decided by evaluating it (in f64) on one pseudo-random sample input
+    /// derived from this seed; the decision is added to the path condition, no alternative is explored. The verdict of the
+    /// obligations then covers all inputs that follow the sample's path (stated as a bound in the evidence).
+    pub concolic: Option<u64>,
+    fval_memo: RefCell<HashMap<u32, f64>>,
 }
 struct Level { smt: String, nl: bool, special: Vec<u32>, vars: Vec<u32> }
+/// Linear form with coefficients on the grid 2^-AGRID and one rigorous bound `err` (in grid units) on the total
+/// coefficient error:  |c0 - m0| + sum_i |c_i - m_i| <= err * 2^-AGRID.  Used for long recursive filters whose exact
+/// rational coefficients have tens of thousands of bits. (Worst-case error grows like (sum |k|)^t, hence the fine grid.)
+pub struct ALin { pub c0: BigInt, pub t: Vec<(u32, BigInt)>, pub err: BigInt }
+const AGRID: usize = 2560;
+impl ALin {
+    fn combine(a: &ALin, b: &ALin, neg_b: bool) -> ALin {
+        let sg = |x: &BigInt| if neg_b { -x } else { x.clone() };
+        let mut t = Vec::with_capacity(a.t.len() + b.t.len());
+        let (mut i, mut j) = (0, 0);
+        while i < a.t.len() || j < b.t.len() {
+            if j >= b.t.len() || (i < a.t.len() && a.t[i].0 < b.t[j].0) { t.push(a.t[i].clone()); i += 1; }
+            else if i >= a.t.len() || b.t[j].0 < a.t[i].0 { t.push((b.t[j].0, sg(&b.t[j].1))); j += 1; }
+            else { t.push((a.t[i].0, &a.t[i].1 + sg(&b.t[j].1))); i += 1; j += 1; }
+        }
+        ALin { c0: &a.c0 + sg(&b.c0), t, err: &a.err + &b.err }
+    }
+    fn scale(a: &ALin, k: &BigRational) -> ALin {
+        use num::Integer;
+        let (p, q) = (k.numer(), k.denom());
+        let f = |m: &BigInt| -> BigInt { (m * p).div_floor(q) };
+        // each floor loses < 1 grid unit; the incoming error is scaled by |k|
+        let err = (&a.err * p.abs() + q - BigInt::one()).div_floor(q) + BigInt::from(a.t.len() + 1);
+        ALin { c0: f(&a.c0), t: a.t.iter().map(|(v, m)| (*v, f(m))).collect(), err }
+    }
+    fn konst(r: &BigRational) -> ALin {
+        use num::Integer;
+        ALin { c0: (r.numer() << AGRID).div_floor(r.denom()), t: vec![], err: if r.denom().is_one() { BigInt::zero() } else { BigInt::one() } }
+    }
+}
+/// linear normal form of a term over "atoms" (variables, sqrt/uf nodes, nonlinear products/quotients): c0 + sum c_i * atom_i
+pub struct Lin { pub c0: BigRational, pub t: Vec<(u32, BigRational)> }
+impl Lin {
+    fn combine(a: &Lin, b: &Lin, kb: &BigRational) -> Lin {
+        // a + kb * b
+        let mut t = Vec::with_capacity(a.t.len() + b.t.len());
+        let (mut i, mut j) = (0, 0);
+        while i < a.t.len() || j < b.t.len() {
+            if j >= b.t.len() || (i < a.t.len() && a.t[i].0 < b.t[j].0) { t.push(a.t[i].clone()); i += 1; }
+            else if i >= a.t.len() || b.t[j].0 < a.t[i].0 { t.push((b.t[j].0, kb * &b.t[j].1)); j += 1; }
+            else { let c = &a.t[i].1 + kb * &b.t[j].1; if !c.is_zero() { t.push((a.t[i].0, c)); } i += 1; j += 1; }
+        }
+        Lin { c0: &a.c0 + kb * &b.c0, t }
+    }
+    fn scale(a: &Lin, k: &BigRational) -> Lin { if k.is_zero() { Lin { c0: BigRational::zero(), t: vec![] } } else { Lin { c0: &a.c0 * k, t: a.t.iter().map(|(v, c)| (*v, c * k)).collect() } } }
+}
 
 thread_local! {
     pub static CTX: RefCell<Option<Ctx>> = RefCell::new(None);
@@ -296,7 +353,7 @@ impl Ctx {
             solver: Solver::new(timeout_ms), mode: Mode::Symbolic, exact_inputs: HashMap::new(),
             var_names: vec![], var_ids: HashMap::new(),
             pc: vec![], decisions: vec![], prefix: vec![], pending: vec![], trace: vec![], cache: HashMap::new(),
-            stats: PathStats::default(), violations: vec![], max_decisions: 400, check_obligations: true, approx: false, n_inputs: 0, branch_nl_timeout_ms: timeout_ms, deadline: None, pc_smt: vec![], levels: vec![], solver_epoch: 0,
+            stats: PathStats::default(), violations: vec![], max_decisions: 400, check_obligations: true, approx: false, n_inputs: 0, branch_nl_timeout_ms: timeout_ms, deadline: None, pc_smt: vec![], levels: vec![], solver_epoch: 0, lin_memo: RefCell::new(HashMap::new()), n_lin_decided: std::cell::Cell::new(0), unit_box: Default::default(), alin_memo: RefCell::new(HashMap::new()), concolic: None, fval_memo: RefCell::new(HashMap::new()),
         }
     }
     pub fn begin_path(&mut self, prefix: Vec<u8>) {
@@ -410,7 +467,81 @@ impl Ctx {
             return Ok(match op { 0 => x < y, 1 => x <= y, _ => x == y });
         }
         if a == b { return Ok(op != 0); }
-        Err(format!("({} n{} n{})", ["<", "<=", "="][op as usize], a, b))
+        // flattened linear normal form of a - b over atoms: decided outright if everything cancels
+        let (la, lb) = (self.lin(a), self.lin(b));
+        let d = Lin::combine(&la, &lb, &-BigRational::one());
+        if d.t.is_empty() {
+            self.n_lin_decided.set(self.n_lin_decided.get() + 1);
+            let z = BigRational::zero();
+            return Ok(match op { 0 => d.c0 < z, 1 => d.c0 <= z, _ => d.c0 == z });
+        }
+        let lhs = if d.t.len() == 1 && d.t[0].1.is_one() { format!("n{}", d.t[0].0) } else {
+            let mut sum = String::from("(+");
+            for (v, c) in &d.t { if c.is_one() { sum.push_str(&format!(" n{}", v)); } else { sum.push_str(&format!(" (* {} n{})", rat_smt(c), v)); } }
+            if d.t.len() == 1 { sum.push_str(" 0.0"); }
+            sum.push(')');
+            sum
+        };
+        Err(format!("({} {} {})", ["<", "<=", "="][op as usize], lhs, rat_smt(&-d.c0)))
+    }
+    /// value of a term on the concolic sample point (f64; used only to pick a path, never for a verdict)
+    pub fn fval(&self, id: u32) -> f64 {
+        if let Some(v) = self.fval_memo.borrow().get(&id) { return *v; }
+        let v = match &self.nodes[id as usize] {
+            Node::Const(r) => rat_f64(r), Node::NaN => f64::NAN, Node::PInf => f64::INFINITY, Node::NInf => f64::NEG_INFINITY,
+            Node::Var(vi) => {
+                let mut h: u64 = self.concolic.unwrap_or(0) ^ 0x9E3779B97F4A7C15;
+                for b in self.var_names[*vi as usize].bytes() { h = (h ^ b as u64).wrapping_mul(0x100000001B3); h ^= h >> 29; }
+                h = h.wrapping_mul(0xD6E8FEB86659FD93); h ^= h >> 32;
+                let u = (h >> 11) as f64 / (1u64 << 53) as f64; // [0,1)
+                let mag = 0.25 + 0.75 * u;
+                if h & 1 == 1 { mag } else { -mag }
+            }
+            Node::Add(a, b) => self.fval(*a) + self.fval(*b), Node::Sub(a, b) => self.fval(*a) - self.fval(*b),
+            Node::Mul(a, b) => self.fval(*a) * self.fval(*b), Node::Div(a, b) => self.fval(*a) / self.fval(*b), Node::Neg(a) => -self.fval(*a),
+            Node::Sqrt(a) => self.fval(*a).sqrt(),
+            Node::Uf(f, a) => { let x = self.fval(*a); match *f { "exp" => x.exp(), "exp2" => x.exp2(), "ln" => x.ln(), "log2" => x.log2(), "log10" => x.log10(), "tanh" => x.tanh(), "sin" => x.sin(), "cos" => x.cos(), "tan" => x.tan(), _ => f64::NAN } }
+        };
+        self.fval_memo.borrow_mut().insert(id, v);
+        v
+    }
+    /// approximate linear normal form with rigorous error bounds (memoised)
+    pub fn alin(&self, id: u32) -> std::rc::Rc<ALin> {
+        if let Some(l) = self.alin_memo.borrow().get(&id) { return l.clone(); }
+        let atom = |id: u32| ALin { c0: BigInt::zero(), t: vec![(id, BigInt::one() << AGRID)], err: BigInt::zero() };
+        let l = match &self.nodes[id as usize] {
+            Node::Const(r) => ALin::konst(r),
+            Node::Add(a, b) => ALin::combine(&self.alin(*a), &self.alin(*b), false),
+            Node::Sub(a, b) => ALin::combine(&self.alin(*a), &self.alin(*b), true),
+            Node::Neg(a) => ALin::scale(&self.alin(*a), &-BigRational::one()),
+            Node::Mul(a, b) => match (self.konst(*a), self.konst(*b)) { (Some(k), _) => ALin::scale(&self.alin(*b), k), (_, Some(k)) => ALin::scale(&self.alin(*a), k), _ => atom(id) },
+            Node::Div(a, b) => match self.konst(*b) { Some(k) if !k.is_zero() => ALin::scale(&self.alin(*a), &(BigRational::one() / k)), _ => atom(id) },
+            _ => atom(id),
+        };
+        let l = std::rc::Rc::new(l);
+        let mut m = self.alin_memo.borrow_mut();
+        if m.len() > 1600 { let keep_from = id.saturating_sub(800); m.retain(|k, _| *k >= keep_from); }
+        m.insert(id, l.clone());
+        l
+    }
+    /// linear normal form (memoised; the memo is dropped when it grows large)
+    pub fn lin(&self, id: u32) -> std::rc::Rc<Lin> {
+        if let Some(l) = self.lin_memo.borrow().get(&id) { return l.clone(); }
+        let atom = |id: u32| Lin { c0: BigRational::zero(), t: vec![(id, BigRational::one())] };
+        let l = match &self.nodes[id as usize] {
+            Node::Const(r) => Lin { c0: r.clone(), t: vec![] },
+            Node::Add(a, b) => Lin::combine(&self.lin(*a), &self.lin(*b), &BigRational::one()),
+            Node::Sub(a, b) => Lin::combine(&self.lin(*a), &self.lin(*b), &-BigRational::one()),
+            Node::Neg(a) => Lin::scale(&self.lin(*a), &-BigRational::one()),
+            Node::Mul(a, b) => match (self.konst(*a), self.konst(*b)) { (Some(k), _) => Lin::scale(&self.lin(*b), k), (_, Some(k)) => Lin::scale(&self.lin(*a), k), _ => atom(id) },
+            Node::Div(a, b) => match self.konst(*b) { Some(k) if !k.is_zero() => Lin::scale(&self.lin(*a), &(BigRational::one() / k)), _ => atom(id) },
+            _ => atom(id),
+        };
+        let l = std::rc::Rc::new(l);
+        let mut m = self.lin_memo.borrow_mut();
+        if m.len() > 3000 { let keep_from = id.saturating_sub(1000); m.retain(|k, _| *k >= keep_from); }
+        m.insert(id, l.clone());
+        l
     }
     pub fn smt(&self, c: &Cond<Sym>) -> String {
         match c {
@@ -575,6 +706,15 @@ impl Ctx {
         let idx = self.decisions.len();
         if idx >= self.max_decisions { std::panic::panic_any(EngineAbort(format!("more than {} symbolic decisions on one path", self.max_decisions))); }
         if let Some(d) = self.deadline { if idx >= self.prefix.len() && Instant::now() > d { std::panic::panic_any(EngineAbort("budget: unit time budget exhausted".into())); } }
+        if self.concolic.is_some() {
+            let (x, y) = (self.fval(a), self.fval(b));
+            let d = if op == 0 { x < y } else { x == y };
+            self.decisions.push(d);
+            self.trace.push(d as u8);
+            self.cache.insert((op, a, b), d);
+            self.push_pc(if d { cond } else { Cond::not(cond) });
+            return d;
+        }
         let (d, forced) = if idx < self.prefix.len() { (self.prefix[idx] & 1 == 1, self.prefix[idx] >= 2) } else {
             let bt = self.branch_nl_timeout_ms;
             let (t, _, _) = self.query_t(&[cond.clone()], false, bt);
@@ -595,6 +735,22 @@ impl Ctx {
         let keep = !forced || { let (nl, _, _) = self.closure(&[&cond]); !nl };
         if keep { self.push_pc(if d { cond } else { Cond::not(cond) }); }
         d
+    }
+    /// does any path-condition conjunct depend on node `v`?
+    pub fn pc_mentions(&self, v: u32) -> bool {
+        let refs: Vec<&Cond<Sym>> = self.pc.iter().collect();
+        let (_, vars, _) = self.closure(&refs);
+        vars.contains(&v)
+    }
+    /// register variable node `v` as ranging over [-1,1]: asserted once, globally (scope 0), for the whole unit —
+    /// every path of the unit makes the same assumption about the same input, so it is not a path-condition conjunct
+    pub fn declare_unit_box(&mut self, v: u32) {
+        if self.unit_box.insert(v) {
+            // assertions are scoped: drop to scope 0 first (the path-condition levels are re-pushed by the next sync)
+            for _ in 0..self.levels.len() { self.solver.send("(pop)"); }
+            self.levels.clear();
+            self.solver.declare(&format!("(assert (and (<= n{v} 1.0) (>= n{v} (- 1.0))))", v = v));
+        }
     }
     pub fn assume(&mut self, c: Cond<Sym>) {
         match self.concrete(&c) {
@@ -649,6 +805,47 @@ impl Ctx {
             }
             Sat::Unknown => self.stats.inconclusive.push(label.to_string()),
         }
+    }
+    /// |term| <= bound where `term` is a linear form over variables assumed to lie in [-1,1].
+    /// The exact coefficients of a long recursive filter are rationals with tens of thousands of bits; the solver is
+    /// given the sound relaxation  |sum c^_i x_i + c^_0| <= bound - delta,  c^_i = c_i rounded to 2^-96,
+    /// delta >= |c_0 - c^_0| + sum |c_i - c^_i|  (valid because |x_i| <= 1); the coefficients are computed on a 2^-128 grid
+    /// with rigorous error bounds (ALin) instead of exactly.  Anything else falls back to the plain obligation.
+    pub fn oblige_abs_le_boxed(&mut self, label: &str, term: Sym, bound: BigRational) {
+        let plain = |b: &BigRational, me: &mut Ctx| { let bb = Sym(me.mk(Node::Const(b.clone()))); let nb = Sym(me.mk(Node::Const(-b.clone()))); Cond::And(vec![Cond::Le(term, bb), Cond::Le(nb, term)]) };
+        if self.mode != Mode::Symbolic || self.special(term.0) { let c = plain(&bound, self); return self.oblige(label, c); }
+        if self.decisions.len() < self.prefix.len() { return; }
+        let l = self.alin(term.0);
+        if l.t.is_empty() || !l.t.iter().all(|(v, _)| self.unit_box.contains(v)) { let c = plain(&bound, self); return self.oblige(label, c); }
+        // coefficients on the 2^-AGRID grid, shortened to 2^-96 for the solver; all discarded mass goes into delta
+        let cut = AGRID - 96;
+        let mut delta = BigRational::new(l.err.clone(), BigInt::one() << AGRID);
+        let short = |m: &BigInt| -> (BigRational, BigRational) { let hi: BigInt = (m >> cut) << cut; (BigRational::new(hi.clone(), BigInt::one() << AGRID), BigRational::new((m - hi).abs(), BigInt::one() << AGRID)) };
+        let (c0, d0) = short(&l.c0);
+        delta += d0;
+        let mut acc = Sym(self.mk(Node::Const(c0)));
+        for (v, m) in &l.t {
+            let (r, d) = short(m);
+            delta += d;
+            if r.is_zero() { continue; }
+            let k = Sym(self.mk(Node::Const(r)));
+            let prod = Sym(self.mk(Node::Mul(k.0, *v)));
+            acc = Sym(self.mk(Node::Add(acc.0, prod.0)));
+        }
+        if delta > BigRational::new(BigInt::one(), BigInt::from(1000000)) { self.stats.inconclusive.push(format!("{} (coefficient error bound {:.3e} too large for the relaxation)", label, rat_f64(&delta))); return; }
+        let b2 = &bound - &delta;
+        let bb = Sym(self.mk(Node::Const(b2.clone())));
+        let nb = Sym(self.mk(Node::Const(-b2)));
+        let ob = Cond::And(vec![Cond::Le(acc, bb), Cond::Le(nb, acc)]);
+        // First ask without the path condition: the obligation only involves boxed inputs, so if it holds on the whole
+        // box it holds on this path (and the query stays linear even when the path condition is not).
+        if !self.pc.is_empty() {
+            let (pc, pcs) = (std::mem::take(&mut self.pc), std::mem::take(&mut self.pc_smt));
+            let (r, _, _) = self.query(&[Cond::not(ob.clone())], false);
+            self.pc = pc; self.pc_smt = pcs;
+            if r == Sat::Unsat { self.stats.obligations += 1; self.stats.discharged += 1; return; }
+        }
+        self.oblige(label, ob);
     }
     pub fn describe(&self, c: &Cond<Sym>) -> String {
         let s = self.smt(c);
